@@ -93,21 +93,31 @@ fn oracle(log: &[Obs], finished_quiescent: bool) -> V {
     let mut reboot_timer: Option<u32> = None;
     let mut in_wait = false;
     let mut pending_requests = 0usize; // requests sent and not yet answered
-    let mut ondemand_since_reboot_q = false;
+    // on-demand requests: (client, seq, replied at, already used to justify a reboot question)
+    let mut ondemand: Vec<(usize, usize, Option<usize>, bool)> = vec![];
+    let mut first_question_of_wait: Option<usize> = None;
     let mut last_reboot_answer: Option<bool> = None;
     for (i, o) in log.iter().enumerate() {
         match o {
-            Obs::Ctl(CtlObs::Sent { opts, .. }) => {
+            Obs::Ctl(CtlObs::Sent { opts, client, seq }) => {
                 pending_requests += 1;
                 if *opts == Src::OnDemand {
-                    ondemand_since_reboot_q = true;
+                    ondemand.push((*client, *seq, None, false));
                 }
             }
-            Obs::Ctl(CtlObs::Reply { .. }) => pending_requests = pending_requests.saturating_sub(1),
+            Obs::Ctl(CtlObs::Reply { client, seq, .. }) => {
+                pending_requests = pending_requests.saturating_sub(1);
+                if let Some(r) = ondemand.iter_mut().find(|r| r.0 == *client && r.1 == *seq) {
+                    r.2 = Some(i);
+                }
+            }
             Obs::Fired(op, _) => {
                 fired.insert(*op);
             }
-            Obs::Ev(Ev::State(State::WaitingForReboot)) => in_wait = true,
+            Obs::Ev(Ev::State(State::WaitingForReboot)) => {
+                in_wait = true;
+                first_question_of_wait = None;
+            }
             Obs::Ev(Ev::State(State::Idle)) => {
                 in_wait = false;
                 reboot_timer = None;
@@ -207,15 +217,25 @@ fn oracle(log: &[Obs], finished_quiescent: bool) -> V {
                 episode = None;
             }
             Obs::RebootAllowed { ans, .. } => {
+                if first_question_of_wait.is_none() {
+                    first_question_of_wait = Some(i);
+                }
                 if let Some(false) = last_reboot_answer {
-                    // a re-ask: only after the 30-minute timer fired or an on-demand request arrived
+                    // a re-ask is justified by the firing of the armed 30-minute timer (once), or by
+                    // one on-demand request that was still unanswered when the wait's first
+                    // question was asked or was sent later (each request justifies one question)
                     let timer_ok = reboot_timer.map(|t| fired.contains(&t)).unwrap_or(false);
-                    if !timer_ok && !ondemand_since_reboot_q {
-                        return bad("reboot question re-asked without its 30-minute timer firing or an on-demand request", format!("#{i}"));
+                    if timer_ok {
+                        reboot_timer = None;
+                    } else {
+                        let fq = first_question_of_wait.unwrap_or(0);
+                        match ondemand.iter_mut().find(|r| !r.3 && r.2.map(|p| p > fq).unwrap_or(true)) {
+                            Some(r) => r.3 = true,
+                            None => return bad("reboot question re-asked without its 30-minute timer firing or an on-demand request", format!("#{i}")),
+                        }
                     }
                 }
                 last_reboot_answer = Some(*ans);
-                ondemand_since_reboot_q = false;
                 if *ans {
                     last_reboot_answer = None;
                 }
@@ -288,6 +308,7 @@ fn run_reboot(ctx: &RunCtx, tier: Tier) -> RunOut {
     let shape = choose("timing.shape", 3);
     let min_wait = choose("timing.min_wait", 2);
     let refusals = 1 + choose("reboot_refusals", 2);
+    let client = choose("client", 3); // 0 none, 1 a scheduled request, 2 an on-demand then a scheduled request
     let mut s = Setup::new(Mode::Start);
     s.blocking = Blocking::timers_only();
     let d = D {
@@ -298,12 +319,21 @@ fn run_reboot(ctx: &RunCtx, tier: Tier) -> RunOut {
         install: true,
     };
     let mut e = Exec::new(s, Box::new(d), Store::default());
+    match client {
+        1 => {
+            e.add_client(vec![Src::Scheduled]);
+        }
+        2 => {
+            e.add_client(vec![Src::OnDemand, Src::Scheduled]);
+        }
+        _ => {}
+    }
     let opts = SchedOpts::default();
-    let max_actions = tier.pick(26, 34);
+    let max_actions = tier.pick(30, 40);
     let stop = e.run_with(&opts, max_actions + 60, |ex, en| {
         let g = ex.w.lock().unwrap();
         let idle = g.log.iter().filter(|o| matches!(o, Obs::Ev(Ev::State(State::Idle)))).count();
-        let sm_runnable = en.iter().any(|a| matches!(a, Action::RunSm));
+        let sm_runnable = en.iter().any(|a| matches!(a, Action::RunSm | Action::RunClient(_)));
         if (idle >= 1 || ex.steps >= max_actions) && !sm_runnable {
             return None;
         }
@@ -340,8 +370,8 @@ fn parts(tier: Tier) -> Vec<PartDef> {
         ),
         PartDef::new(
             "reboot-wait",
-            Cfg::new("C12/reboot-wait").dev(d).free(&["timing.shape", "timing.min_wait", "reboot_refusals"]),
-            json!({"timing_shapes": 3, "minimum_wait": ["none", "7 s"], "reboot_refusals": [1, 2], "scheduling": format!("ping timers and the 30-minute timer in every order, at most {d} non-default choices")}),
+            Cfg::new("C12/reboot-wait").dev(d).free(&["timing.shape", "timing.min_wait", "reboot_refusals", "client"]),
+            json!({"timing_shapes": 3, "minimum_wait": ["none", "7 s"], "reboot_refusals": [1, 2], "client": ["none", "scheduled request", "on-demand then scheduled request"], "scheduling": format!("ping timers and the 30-minute timer in every order, at most {d} non-default choices")}),
             move |ctx| run_reboot(ctx, tier),
         ),
     ]
